@@ -110,6 +110,26 @@ def run_case(case, ctx, mon):
     mon.count("inputs", len(case["inputs"]))
 
 
+def run_kernel_slices(case, ctx, mon):
+    """fasthash64 on slices made *inside* jitted code (arbitrary alignment, one to several 8-byte blocks): observed through
+    HyperLogLog.add_ngram, whose registers must be those of the reference hash over every window."""
+    from ..refs import hll_ref
+
+    s = sk()
+    key = unhx(case["key"])
+    n, seed, p = case["ngram"], case["seed"], 16
+    h = s.HyperLogLog(p, seed)
+    mon.api(h.add_ngram, key, n)
+    wins = hll_ref.windows(key, n)
+    want = hll_ref.registers_for(wins, p, seed)
+    bad = np.flatnonzero(np.asarray(h.registers) != want)
+    mon.check(len(bad) == 0, "fasthash64-on-in-kernel-slices==reference(via add_ngram)", key=case["key"], ngram=n, seed=seed,
+              n_windows=len(wins), n_bad_registers=int(len(bad)))
+    mon.count("kernel_slice_windows", len(wins))
+    mon.seen("kernel_slice_len_class", "multi-block" if n >= 16 else ("one-block" if n >= 8 else "tail-only"))
+    mon.nontrivial(len(wins) > 1)
+
+
 def fixed_vectors(ctx, mon):
     s = sk()
     case = {"fixed": "published-vectors"}
@@ -214,11 +234,20 @@ def run(ctx, mon):
         second_interpreter(ctx, mon)
     if ctx.thorough:
         c_reference(ctx, mon)
+    rng = ctx.rng("kernel-slices")
+    ks = []
+    for i in range(120 if ctx.quick else 600):
+        ln = int(rng.integers(10, 80))
+        ks.append({"kernel_slices": True, "key": hx(rand_bytes(rng, ln, int(rng.integers(0, 5)))), "ngram": int(rng.integers(1, min(ln, 48) + 1)),
+                   "seed": SEEDS64[i % len(SEEDS64)]})
+    run_cases(ctx, mon, ks, run_kernel_slices, time_bound=False)
     run_cases(ctx, mon, gen_cases(ctx), run_case)
 
 
 def replay(case, ctx, mon):
-    if "inputs" in case:
+    if "kernel_slices" in case:
+        run_kernel_slices(case, ctx, mon)
+    elif "inputs" in case:
         run_case(case, ctx, mon)
     elif "second_interpreter" in case:
         second_interpreter(ctx, mon)
@@ -232,3 +261,5 @@ def floors(mon, ctx):
     mon.floor("listed 64-bit seeds", len([x for x in mon.classes["seed64"] if x != "random"]), len(SEEDS64))
     mon.floor("inputs", mon.counters["inputs"], 2000)
     mon.floor("second interpreter runs", mon.counters["second_interpreter_runs"], 2)
+    mon.floor("in-kernel slice windows", mon.counters["kernel_slice_windows"], 1000)
+    mon.floor("in-kernel slice length classes", len(mon.classes["kernel_slice_len_class"]), 3)
